@@ -329,3 +329,43 @@ Example dealloc_wide_flags_leaves_an_operand :
   | Err _ => False
   end.
 Proof. vm_compute. reflexivity. Qed.
+
+(** ** the public entry point [deallocate_lists[_and_own]_in_types] *)
+Lemma stack_must_be_empty_ok s : stack s = [] -> ok_with stack_must_be_empty s (stk s []).
+Proof.
+  intros Hs. unfold stack_must_be_empty, ok_with, bind, get. rewrite Hs. unfold ret, stk. split; [exact Hs | apply frame_refl].
+Qed.
+
+Theorem deallocate_in_types_indirect_ok w types addr s :
+  stack s = [] -> ok_with (deallocate_in_types w types [addr] true) s (fun _ s' => stack s' = []).
+Proof.
+  intros Hs. unfold deallocate_in_types.
+  eapply ok_seq.
+  { apply (mapM_ok (fun '(o, t) => dealloc_indirect w t addr o) (sa_field_offsets types) []); [|exact Hs].
+    intros [o t] s0 Hs0. apply dealloc_indirect_ok. exact Hs0. }
+  intros s1 Hs1 Hf1.
+  eapply ok_weaken; [apply stack_must_be_empty_ok; exact Hs1|]. intros [] s2 [H _]. exact H.
+Qed.
+
+Theorem deallocate_in_types_direct_ok w : forall types operands s,
+  Forall fits types -> forallb flags_one_word types = true ->
+  length operands = length (concat (map wflat types)) -> stack s = [] ->
+  ok_with (deallocate_in_types w types operands false) s (fun _ s' => stack s' = []).
+Proof.
+  unfold deallocate_in_types.
+  induction types as [|t types IH]; intros operands s Hfit Hfl Hl Hs.
+  - destruct operands; [|discriminate Hl]. unfold ok_with, ret. exact Hs.
+  - inversion Hfit as [|? ? Hft Hfts]; subst. cbn [forallb] in Hfl. apply andb_split in Hfl. destruct Hfl as [Hflt Hflts].
+    cbn [map concat] in Hl. rewrite app_length in Hl.
+    eapply ok_pure_bind; [apply flat_unwrap_ok; exact Hft|].
+    eapply ok_seq with (st := []).
+    { destruct (Nat.ltb_spec (length operands) (length (wflat t))); [lia|].
+      apply ok_ret_stk; [exact Hs | apply frame_refl]. }
+    intros s2 Hs2 Hf2.
+    eapply ok_seq; [eapply ok_push_all'; exact Hs2|]. intros s3 Hs3 Hf3.
+    eapply ok_seq.
+    { eapply (dealloc_ok w t Hflt Hft s3 _ [] Hs3). rewrite rev_length, firstn_length. lia. }
+    intros s4 Hs4 Hf4.
+    eapply ok_seq; [apply stack_must_be_empty_ok; exact Hs4|]. intros s5 Hs5 Hf5.
+    apply IH; [exact Hfts | exact Hflts | rewrite skipn_length; lia | exact Hs5].
+Qed.
